@@ -12,7 +12,7 @@ from model import listings as L
 
 SPEC = {
     "level": "exploration",
-    "technique": "cross-view consistency monitor: independent parsers for every listing/symbol format checked against spans, output bits, symbol values and source text of the same run",
+    "technique": "cross-view consistency monitor: independent parsers for every listing/symbol format checked against spans, output bits, symbol values and source text of the same run; row addresses recomputed from the bank table and label rows counted against the symbol table",
     "level_text": ("Exploration: generated programs (multi-bank, bit-granular, included files, nested labels, suppressed "
                    "constants, multi-byte characters in comments and strings) are formatted in 12 views per program - "
                    "annotated with every base 2..128 and group 1..9 (incl. wide groups), tcgame, addrspan, symbols, mesen-mlb - "
